@@ -503,6 +503,7 @@ static int _bisect_forward_serialno(OggVorbis_File *vf,
     while(endserial != serialno){
       endserial = serialno;
       searched=_get_prev_page_serial(vf,searched,currentno_list,currentnos,&endserial,&endgran);
+      if(searched<0)return((int)searched);
     }
 
     vf->links=m+1;
@@ -563,6 +564,7 @@ static int _bisect_forward_serialno(OggVorbis_File *vf,
     while(testserial != serialno){
       testserial = serialno;
       searched = _get_prev_page_serial(vf,searched,currentno_list,currentnos,&testserial,&searchgran);
+      if(searched<0)return((int)searched);
     }
 
     ret=_seek_helper(vf,next);
@@ -628,7 +630,8 @@ static int _open_seekable2(OggVorbis_File *vf){
 
   /* we can seek, so set out learning all about this file */
   if(vf->callbacks.seek_func && vf->callbacks.tell_func){
-    (vf->callbacks.seek_func)(vf->datasource,0,SEEK_END);
+    if((vf->callbacks.seek_func)(vf->datasource,0,SEEK_END)==-1)
+      return(OV_EREAD);
     vf->offset=vf->end=(vf->callbacks.tell_func)(vf->datasource);
   }else{
     vf->offset=vf->end=-1;
